@@ -297,6 +297,14 @@ class SymExec:
         m = re.match(r"^\[(.*)\]$", rv)
         if m:
             return ("ARR", [self.operand(path, x) for x in split_top(m.group(1))])
+        m = re.match(r"^(\{closure@[^}]*\}|[A-Za-z_][A-Za-z_0-9:<>, ]*) \{ (.*) \}$", rv)
+        if m:
+            # struct / closure aggregate: fields in declaration order
+            fields = []
+            for part in split_top(m.group(2)):
+                name, _, val = part.partition(": ")
+                fields.append(self.operand(path, val))
+            return ("TUPLE", fields)
         m = re.match(r"^\((.*)\)$", rv)
         if m and ("," in rv or rv == "()"):
             return ("TUPLE", [self.operand(path, x) for x in split_top(m.group(1))])
